@@ -210,6 +210,19 @@ def run(ctx):
         if L.to68(x) != ws[0] or L.writeBytes68(x) != struct.pack('>I', ws[0]):
             bad('to68-agree', 'RepCode.to68/writeBytes68(%r) differ from the implementations' % x, dict(value=x))
             break
+    # outside the representable range (the denormal band below 2^-129, values beyond +-2^127) only the bit-for-bit agreement
+    # of the three encoders is required
+    for i in range(ctx.pick(60000, 600000)):
+        e = rng.choice([rng.randint(-160, -126), rng.randint(-160, -126), rng.randint(126, 135), rng.randint(-1080, 1023)])
+        x = math.ldexp(rng.choice([0.5, 0.75, 1 - 2 ** -30, 0.5 + 2 ** -40, 0.5 + 2 ** -23, 0.5 + 2 ** -24, rng.uniform(0.5, 1)]), e) * rng.choice([1, -1])
+        try:
+            ws = (P.to68(x), C.to68(x), CP.to68(x))
+        except Exception as ex:
+            bad('to68-agree', 'to68(%r) raised %s: %s' % (x, type(ex).__name__, ex), dict(value=x))
+            break
+        if not (ws[0] == ws[1] == ws[2]):
+            bad('to68-agree', 'to68(%r) (outside the normal range): Python 0x%08x, Cython 0x%08x, C++ 0x%08x' % (x, ws[0], ws[1], ws[2]), dict(value=x))
+            break
     ctx.rule = ('one case per oracle-table row (32-bit class points, 16-bit and 8-bit words, UVARI prefixes, consumption sequences) '
                 'plus sampled code-68 words and doubles; non-trivial = non-zero value')
     ctx.assumptions += ['LIS code 50 is judged for exponent fields 0..1023 only and RP66V1 VSINGL values are not judged (the sources '
